@@ -11,77 +11,255 @@ def wave_array(key, n):
     return 1000.0 * (key + 1) + np.arange(n, dtype=np.double) + 0.5
 
 
+ARRAY_KINDS = ('array', 'i64', 'i16', 'f32', 'ro', 'view', 'list')     # modelled as KArray
+GEN_KINDS = ('gen', 'cos2')                                            # modelled as KGen
+
+
 def mk_source(st, key, fs):
+    """The object handed to append()/extend().  Kinds beyond the float64 ndarray / generator pair exist because
+    the queue must present *the queued waveform* whatever its container: integer and float32 dtypes, read-only
+    arrays, non-contiguous views, plain Python lists (with an explicit duration)."""
     from psiaudio import stim
     n = st['len']
-    if st['kind'] == 'array':
+    kind = st['kind']
+    if kind == 'array':
         return wave_array(key, n)
-    if st['kind'] == 'gen':
+    if kind == 'i64':
+        return (1000 * (key + 1) + np.arange(n)).astype(np.int64)
+    if kind == 'i16':
+        return (1000 * (key + 1) + np.arange(n)).astype(np.int16)
+    if kind == 'f32':
+        return wave_array(key, n).astype(np.float32)
+    if kind == 'ro':
+        a = wave_array(key, n)
+        a.flags.writeable = False
+        return a
+    if kind == 'view':
+        base = np.repeat(wave_array(key, n), 2)
+        base[1::2] = -1.0
+        return base[::2]
+    if kind == 'list':
+        return [float(v) for v in wave_array(key, n)]
+    if kind == 'gen':
         return stim.FixedWaveform(fs, wave_array(key, n))
-    if st['kind'] == 'cos2':
+    if kind == 'cos2':
         tone = stim.ToneFactory(fs, fs / 7.0, 1.0 + key)
         return stim.Cos2EnvelopeFactory(fs, n / fs, (n // 4) / fs, tone)
-    raise KeyError(st['kind'])
+    raise KeyError(kind)
 
 
 def expected_wave(st, key, fs):
     src = mk_source(st, key, fs)
-    if isinstance(src, np.ndarray):
-        return src
+    if st['kind'] in ARRAY_KINDS:
+        return np.asarray(src, dtype=float)
     return np.asarray(src.next(st['len']), dtype=float)
 
 
+def declared_dur(st):
+    """declared duration in samples: the `duration` keyword if the case gives one, else what the code derives"""
+    d = st.get('dur')
+    return st['len'] if d is None else d
+
+
+def fs_object(case):
+    fs = case['fs']
+    kind = case.get('mk', {}).get('fs_kind', 'float')
+    if kind == 'int' and float(fs).is_integer():
+        return int(fs)
+    if kind == 'np64':
+        return np.float64(fs)
+    return fs
+
+
+def _delays_arg(st, fs):
+    """scalar / None / list / tuple / ndarray / list iterator / generator / itertools.cycle"""
+    import itertools
+    d = st['delays']
+    kind = st.get('dkind', 'auto')
+    if d is None:
+        return None
+    if not isinstance(d, list):
+        v = d / fs
+        if kind == 'np':
+            return np.float64(v)
+        if kind == 'int0' and d == 0:
+            return 0
+        return v
+    v = [x / fs for x in d]
+    if kind == 'tuple':
+        return tuple(v)
+    if kind == 'ndarray':
+        return np.array(v, dtype=float)
+    if kind == 'iter':
+        return iter(v)
+    if kind == 'gen':
+        return (x for x in v)
+    if kind == 'cycle':
+        return itertools.cycle(v)
+    return v
+
+
+def _trials_arg(st):
+    t = st['trials']
+    kind = st.get('tkind', 'int')
+    if kind == 'np':
+        return np.int64(t)
+    if kind == 'float':
+        return float(t)
+    if kind == 'npf':
+        return np.float64(t)
+    return t
+
+
 def mk_queue(case):
+    """Builds the queue through the constructor variant the case asks for (case['mk']): class or the `queues`
+    dict; fs by keyword / positionally / through set_fs(), as float / int / numpy scalar; policy options given
+    explicitly, left at their defaults, positionally or as truthy non-bools; set_t0() called or skipped."""
     from psiaudio import queue as Q
     fs = case['fs']
+    fso = fs_object(case)
     p = case['pol']
-    if p == 'fifo':
-        q = Q.FIFOSignalQueue(fs=fs)
-    elif p == 'inter_keep':
-        q = Q.InterleavedFIFOSignalQueue(fs=fs, keep_complete_waveforms=True)
+    mk = case.get('mk', {})
+    opt = mk.get('opt', 'explicit')
+    names = {'fifo': 'first-in, first-out', 'inter_keep': 'interleaved first-in, first-out',
+             'inter_nokeep': 'interleaved first-in, first-out', 'random': 'random', 'blocked_random': 'blocked random',
+             'grouped': 'grouped first-in, first-out', 'blocked_fifo': 'blocked first-in, first-out'}
+    classes = {'fifo': Q.FIFOSignalQueue, 'inter_keep': Q.InterleavedFIFOSignalQueue,
+               'inter_nokeep': Q.InterleavedFIFOSignalQueue, 'random': Q.RandomSignalQueue,
+               'blocked_random': Q.BlockedRandomSignalQueue, 'grouped': Q.GroupedFIFOSignalQueue,
+               'blocked_fifo': Q.BlockedFIFOSignalQueue}
+    cls = Q.queues[names[p]] if mk.get('via') == 'dict' else classes[p]
+    args, kw = [], {}
+    if p == 'inter_keep':
+        if opt == 'truthy':
+            kw['keep_complete_waveforms'] = 1
+        elif opt == 'pos':
+            args.append(True)
+        elif opt != 'default':
+            kw['keep_complete_waveforms'] = True
     elif p == 'inter_nokeep':
-        q = Q.InterleavedFIFOSignalQueue(fs=fs, keep_complete_waveforms=False)
-    elif p == 'random':
-        q = Q.RandomSignalQueue(fs=fs)
+        if opt == 'truthy':
+            kw['keep_complete_waveforms'] = 0
+        elif opt == 'pos':
+            args.append(False)
+        else:
+            kw['keep_complete_waveforms'] = False
     elif p == 'blocked_random':
-        q = Q.BlockedRandomSignalQueue(seed=case.get('seed', 0), fs=fs)
+        seed = case.get('seed', 0)
+        if opt == 'pos':
+            args.append(seed)
+        elif opt == 'np':
+            kw['seed'] = np.int64(seed)
+        elif not (opt == 'default' and seed == 0):
+            kw['seed'] = seed
     elif p == 'grouped':
-        q = Q.GroupedFIFOSignalQueue(group_size=case['gs'], fs=fs)
-    elif p == 'blocked_fifo':
-        q = Q.BlockedFIFOSignalQueue(fs=fs)
+        if opt == 'pos':
+            args.append(case['gs'])
+        elif opt == 'np':
+            kw['group_size'] = np.int64(case['gs'])
+        else:
+            kw['group_size'] = case['gs']
+    how = mk.get('fs', 'ctor')
+    if how == 'pos' and p in ('fifo', 'random') and not args:
+        q = cls(fso)
+    elif how == 'set_fs':
+        q = cls(*args, **kw)
+        q.set_fs(fso)
     else:
-        raise KeyError(p)
-    q.set_t0(case.get('t0', 0) / fs)
+        q = cls(*args, fs=fso, **kw)
+    if not (mk.get('t0') == 'skip' and case.get('t0', 0) == 0):
+        q.set_t0(case.get('t0', 0) / fs)
+    sources, rows = [], []
+    for k, st in enumerate(case['stims']):
+        src = mk_source(st, k, fs)
+        sources.append(src)
+        dur = st.get('dur')
+        if dur is None and st['kind'] == 'list':
+            dur = st['len']                  # a list has no shape: the duration must be declared
+        rows.append({'source': src, 'trials': _trials_arg(st), 'delays': _delays_arg(st, fs),
+                     'duration': None if dur is None else dur / fs, 'metadata': st.get('meta'),
+                     'has_meta': 'meta' in st})
     keys = []
     fill = case.get('fill', 'append')
-    args = []
-    for k, st in enumerate(case['stims']):
-        d = st['delays']
-        delays = [x / fs for x in d] if isinstance(d, list) else d / fs
-        args.append((mk_source(st, k, fs), st['trials'], delays))
+
+    def append(r):
+        if r['duration'] is not None or r['has_meta']:
+            kws = {}
+            if r['delays'] is not None:
+                kws['delays'] = r['delays']
+            if r['duration'] is not None:
+                kws['duration'] = r['duration']
+            if r['has_meta']:
+                kws['metadata'] = r['metadata']
+            return q.append(r['source'], r['trials'], **kws)
+        if r['delays'] is None:
+            return q.append(r['source'], r['trials'])            # delays left at its default (None -> no gap)
+        return q.append(r['source'], r['trials'], r['delays'])
+
     if fill == 'append':
-        for a in args:
-            keys.append(q.append(*a))
+        for r in rows:
+            keys.append(append(r))
     else:
-        # extend() takes parallel sequences; 'mixed' appends the first stimulus and extends with the rest
-        head = 1 if (fill == 'mixed' and len(args) > 1) else 0
-        for a in args[:head]:
-            keys.append(q.append(*a))
-        rest = args[head:]
+        # extend() takes parallel sequences (or scalars applied to every source); 'mixed' appends the first
+        # stimulus and extends with the rest
+        head = 1 if (fill == 'mixed' and len(rows) > 1) else 0
+        for r in rows[:head]:
+            keys.append(append(r))
+        rest = rows[head:]
         if rest:
-            if all(not isinstance(a[2], list) for a in rest):
-                keys += q.extend([a[0] for a in rest], [a[1] for a in rest], [a[2] for a in rest])
+            srcs = [r['source'] for r in rest]
+            tr = [r['trials'] for r in rest]
+            dl = [r['delays'] for r in rest]
+            uniform = (fill == 'extend_scalar' and len(set(map(repr, tr))) == 1
+                       and all(not np.iterable(d) for d in dl) and len(set(map(repr, dl))) == 1)
+            kws = {}
+            if any(r['duration'] is not None for r in rest):
+                kws['duration'] = [r['duration'] for r in rest]
+            if any(r['has_meta'] for r in rest):
+                kws['metadata'] = [r['metadata'] for r in rest]
+            if uniform and dl[0] is None:
+                keys += q.extend(srcs, tr[0], **kws)
+            elif uniform:
+                keys += q.extend(srcs, tr[0], dl[0], **kws)
             else:
-                for a in rest:        # per-trial delay lists cannot be told apart from the parallel-sequence form
-                    keys.append(q.append(*a))
-    return q, keys
+                keys += q.extend(srcs, tr, dl, **kws)
+    return q, keys, sources
 
 
 def eff_delays(st, fs):
     d = st['delays']
+    if d is None:
+        return [0], True                                  # as_iterator(None) cycles 0
     if isinstance(d, list):
-        return [int(round((x / fs) * fs)) for x in d], False
+        return [int(round((x / fs) * fs)) for x in d], st.get('dkind') == 'cycle'
     return [int(round((d / fs) * fs))], True
+
+
+def _jsonable(x):
+    if isinstance(x, (list, tuple)):
+        return [_jsonable(v) for v in x]
+    if isinstance(x, dict):
+        return {str(k): _jsonable(v) for k, v in x.items()}
+    if isinstance(x, (np.generic,)):
+        return x.item()
+    return x
+
+
+def _abuse_sources(case, sources):
+    """what a caller may legitimately do with ITS objects after queueing them"""
+    for st, src in zip(case['stims'], sources):
+        n = st['len']
+        if st['kind'] == 'list':
+            src[:] = [-5.0] * n
+        elif st['kind'] in ARRAY_KINDS:
+            if src.flags.writeable:
+                src[...] = -5
+        elif st['kind'] == 'gen':
+            if n >= 2:
+                src.next(2)
+            src.waveform[...] = -5.0
+        elif n >= 2:
+            src.next(2)
 
 
 def run_impl(case):
@@ -90,55 +268,134 @@ def run_impl(case):
     T0 = case.get('t0', 0) / fs
     if case['pol'] == 'random':
         np.random.seed(case.get('seed', 0))
-    q, keys = mk_queue(case)
+    q, keys, sources = mk_queue(case)
+    abuse = case.get('abuse', True)
     kidx = {k: i for i, k in enumerate(keys)}
-    events = []
+    events, decs, second = [], [], []
+    live = [True]
 
     def ev(kind):
         def cb(info):
+            if not live[0]:
+                return
             if kind == 'empty':
                 events.append(['empty'])
             else:
                 t0 = info['t0']
                 s = int(round((t0 - T0) * fs))
-                events.append([kind, kidx[info['key']], s, bool(t0 == T0 + s / fs), float(info['duration'])])
+                events.append([kind, kidx[info['key']], s, bool(t0 == T0 + s / fs), float(info['duration']),
+                               _jsonable(info['metadata']), bool(info['decrement'])])
         return cb
     for kind in ('added', 'removed', 'empty'):
         q.connect(ev(kind), kind)
+    q.connect(lambda info: live[0] and decs.append(kidx[info['key']]), 'decrement')
+    q.connect(lambda info: live[0] and second.append(kidx[info['key']]))     # a second subscriber, default event
+    static = {}
+    try:
+        static['bad_event'] = None
+        q.connect(lambda info: None, 'no-such-event')
+        static['bad_event'] = 'connect() accepted an unknown event'
+    except KeyError:
+        pass
+    if not any(st['kind'] == 'list' for st in case['stims']) and case['stims']:
+        static['max_duration'] = float(q.get_max_duration())
+    if abuse:
+        _abuse_sources(case, sources)
+    fso = fs_object(case)
 
     def status():
         ts = q.get_ts()
         s = int(round(ts * fs))
+        rem = [q.remaining_trials(k) for k in keys]
+        bad = None
+        if not (q.fs == fso):
+            bad = 'fs property differs from the rate given'
+        for i, k in enumerate(keys):
+            inf = q.get_info(k)
+            if set(inf) != {'source', 'trials', 'requested_trials', 'delays', 'duration', 'metadata'}:
+                bad = f'get_info keys {sorted(inf)}'
+            elif inf['trials'] != rem[i] or inf['requested_trials'] != case['stims'][i]['trials'] \
+                    or inf['duration'] != declared_dur(case['stims'][i]) / fs:
+                bad = f'get_info({i}) = trials {inf["trials"]} requested {inf["requested_trials"]} duration {inf["duration"]}'
+            if abuse:                      # the returned dict is the caller's
+                inf['trials'] = -100
+                inf['requested_trials'] = -100
+                inf['duration'] = 1e9
         return {'samples': s, 'ts_exact': bool(ts == s / fs), 'empty': bool(q.is_empty()),
                 'count': int(q.count_trials()), 'requested': int(q.count_requested_trials()),
-                'remaining': [int(q.remaining_trials(k)) for k in keys]}
+                'remaining': [int(x) for x in rem], 'factories': int(q.count_factories()), 'info': bad}
 
     out = []
+    originals = []
     for n_op, o in enumerate(case['ops']):
-        del events[:]
+        del events[:], decs[:], second[:]
         if case['pol'] != 'random' and case.get('disturb', True):
             # nothing but RandomSignalQueue may depend on the global NumPy random state
             np.random.seed(1000 + n_op)
             np.random.uniform(size=3)
+        if originals:
+            # the queue(s) this one was cloned from keep running: nothing of that may reach the clone
+            live[0] = False
+            for qo in originals:
+                qo.pop_buffer(3)
+            live[0] = True
+        flag = o[2] if len(o) > 2 else ''
         if o[0] == 'pop':
+            n = {'np': np.int64, 'np32': np.int32}.get(flag, int)(o[1])
             try:
-                w = q.pop_buffer(o[1])
-                out.append({'op': 'pop', 'wave': [float(v) for v in w], 'events': list(events), 'status': status()})
+                if flag == 'nd':
+                    w = q.pop_buffer(n, False)
+                elif flag == 'ndkw':
+                    w = q.pop_buffer(samples=n, decrement=False)
+                elif flag == 'kw':
+                    w = q.pop_buffer(samples=n, decrement=True)
+                else:
+                    w = q.pop_buffer(n)
+                rec = {'op': 'pop', 'wave': [float(v) for v in w], 'events': list(events), 'status': status(),
+                       'decs': list(decs), 'second': list(second)}
+                if abuse and isinstance(w, np.ndarray) and w.flags.writeable:
+                    w[...] = 99.0                  # the returned buffer is the caller's
+                out.append(rec)
             except (IndexError, ZeroDivisionError, KeyError, StopIteration, RuntimeError, ValueError) as e:
                 out.append({'op': 'pop', 'raised': type(e).__name__, 'events': list(events)})
                 break
         elif o[0] == 'pause':
             t = None if o[1] is None else T0 + o[1] / fs
+            if t is not None and flag == 'np':
+                t = np.float64(t)
             try:
-                q.pause(t)
+                if flag == 'kw':
+                    q.pause(t=t)
+                elif t is None and flag == 'noarg':
+                    q.pause()
+                else:
+                    q.pause(t)
                 out.append({'op': 'pause', 'events': list(events), 'status': status()})
             except ValueError:
                 out.append({'op': 'pause', 'raised': 'ValueError', 'events': list(events)})
                 break
         elif o[0] == 'resume':
             t = None if o[1] is None else T0 + o[1] / fs
-            q.resume(t)
+            if t is not None and flag == 'np':
+                t = np.float64(t)
+            if flag == 'kw':
+                q.resume(t=t)
+            elif t is None and flag == 'noarg':
+                q.resume()
+            else:
+                q.resume(t)
             out.append({'op': 'resume', 'events': list(events), 'status': status()})
+        elif o[0] == 'clone':
+            originals.append(q)
+            q = q.clone()
+            out.append({'op': 'clone', 'events': list(events), 'status': status()})
+        elif o[0] == 'closest':
+            k = q.get_closest_key(T0 + o[1] / fs)
+            out.append({'op': 'closest', 'key': -1 if k is None else kidx[k], 'events': list(events)})
+        else:
+            raise KeyError(o[0])
+    if out:
+        out[0]['static'] = static
     return out
 
 
@@ -147,6 +404,18 @@ def eff_time(case, k):
     fs = case['fs']
     T0 = case.get('t0', 0) / fs
     return int(round(((T0 + k / fs) - T0) * fs))
+
+
+def eff_closest(case, k):
+    """largest sample index s with T0 + s/fs <= T0 + k/fs in the code's own float arithmetic (-1: none)"""
+    fs = case['fs']
+    T0 = case.get('t0', 0) / fs
+    t = T0 + k / fs
+    best = -1
+    for s in range(0, max(0, int(k)) + 3):
+        if T0 + s / fs <= t:
+            best = s
+    return best
 
 
 def blocked_perms(seed, n, count=120):
@@ -159,6 +428,26 @@ def blocked_perms(seed, n, count=120):
     return out
 
 
+def model_ops(case):
+    """the history as Coq `xop`s (clone is the identity on the model: the clone must simply carry on)"""
+    ops = []
+    for o in case['ops']:
+        flag = o[2] if len(o) > 2 else ''
+        if o[0] == 'pop':
+            ops.append(f"XPop {zlit(o[1])} {'false' if flag in ('nd', 'ndkw') else 'true'}")
+        elif o[0] in ('pause', 'resume'):
+            a = 'None' if o[1] is None else f'(Some {zlit(eff_time(case, o[1]))})'
+            ops.append(('XPause ' if o[0] == 'pause' else 'XResume ') + a)
+        elif o[0] == 'closest':
+            ops.append(f'XClosest {zlit(eff_closest(case, o[1]))}')
+    return ops
+
+
+def plain_history(case):
+    """only operations the Spec.v vocabulary (qop) can express, all with automatic decrement"""
+    return all(o[0] in ('pop', 'pause', 'resume') and (len(o) < 3 or o[2] not in ('nd', 'ndkw')) for o in case['ops'])
+
+
 def coq_expr(case, res, tests_fn=None):
     fs = case['fs']
     p = case['pol']
@@ -169,25 +458,22 @@ def coq_expr(case, res, tests_fn=None):
     es = []
     for st in case['stims']:
         d, cyc = eff_delays(st, fs)
-        es.append(f"mk_entry {zlit(st['trials'])} {zlit(st['len'])} "
-                  f"{'KArray' if st['kind'] == 'array' else 'KGen'} {zlist(d)} {'true' if cyc else 'false'}")
+        kind = 'KArray' if st['kind'] in ARRAY_KINDS else 'KGen'
+        if declared_dur(st) == st['len']:
+            es.append(f"mk_entry {zlit(st['trials'])} {zlit(st['len'])} {kind} {zlist(d)} {'true' if cyc else 'false'}")
+        else:
+            es.append(f"mk_entry_dur {zlit(st['trials'])} {zlit(st['len'])} {kind} {zlist(d)} "
+                      f"{'true' if cyc else 'false'} {zlit(declared_dur(st))}")
     choices = []
     if p == 'random':
         for r in res:
             choices += [e[1] for e in r.get('events', []) if e[0] == 'added']
     perms = blocked_perms(case.get('seed', 0), n) if p == 'blocked_random' else []
-    ops = []
-    for o in case['ops']:
-        if o[0] == 'pop':
-            ops.append(f'Pop {zlit(o[1])}')
-        else:
-            a = 'None' if o[1] is None else f'(Some {zlit(eff_time(case, o[1]))})'
-            ops.append(('Pause ' if o[0] == 'pause' else 'Resume ') + a)
     args = (f"{pol} {listlit(['(' + e + ')' for e in es])} {zlist(choices)} "
             f"{listlit([zlist(pm) for pm in perms])}")
-    tests = tests_fn(args, case) if tests_fn else []
+    tests = tests_fn(args, case) if (tests_fn and plain_history(case)) else []
     tail = (' ++ [' + '; '.join(f'(if {t} then 1 else 0)' for t in tests) + ']') if tests else ''
-    return f"run_queue {args} {listlit(ops)}{tail}", len(tests)
+    return f"run_queue_x {args} {listlit(model_ops(case))}{tail}", len(tests)
 
 
 def decode(mo, nst):
@@ -202,7 +488,8 @@ def decode(mo, nst):
 
     def status():
         s, e, c, r = take(4)
-        return {'samples': s, 'empty': bool(e), 'count': c, 'requested': r, 'remaining': list(take(nst)) if nst > 1 else [take()]}
+        rem = list(take(nst)) if nst > 1 else ([take()] if nst == 1 else [])
+        return {'samples': s, 'empty': bool(e), 'count': c, 'requested': r, 'remaining': rem, 'factories': take()}
 
     while pos < len(mo):
         code = take()
@@ -211,13 +498,34 @@ def decode(mo, nst):
             break
         if code == 4:
             ne = take()
-            out.append({'raised': True, 'events': [list(take(3)) for _ in range(ne)]})
+            out.append({'raised': True, 'events': [list(take(4)) for _ in range(ne)]})
             break
+        if code == 6:
+            out.append({'closest': take()})
+            continue
         ns = take()
         samples = [tuple(take(2)) for _ in range(ns)]
         ne = take()
-        events = [list(take(3)) for _ in range(ne)]
+        events = [list(take(4)) for _ in range(ne)]
         out.append({'samples': samples, 'events': events, 'status': status()})
+    return out
+
+
+def expected_decrements(case, res):
+    """'decrement' notifications (harness-side rule, pause-free histories only): the base-class decrement_key,
+    which only the FIFO and random queues use, notifies when trials remain after an automatic decrement."""
+    if any(o[0] in ('pause', 'resume') for o in case['ops']):
+        return None
+    left = [st['trials'] for st in case['stims']]
+    out = []
+    for r in res:
+        exp = []
+        for e in r.get('events', []):
+            if e[0] == 'added' and e[6]:
+                left[e[1]] -= 1
+                if case['pol'] in ('fifo', 'random') and left[e[1]] > 0:
+                    exp.append(e[1])
+        out.append(exp)
     return out
 
 
@@ -234,23 +542,59 @@ def compare(case, res, mo, ntests=0):
     except Exception as e:
         return f'cannot decode model output ({e})'
     waves = [expected_wave(st, k, fs) for k, st in enumerate(case['stims'])]
-    if len(dec) != len(res):
-        return f'model produced {len(dec)} results, implementation {len(res)}'
-    for i, (o, r, d) in enumerate(zip(case['ops'], res, dec)):
+    static = res[0].get('static', {}) if res else {}
+    if static.get('bad_event'):
+        return static['bad_event']
+    if 'max_duration' in static:
+        want = max((mk_source(st, k, fs).get_duration() if st['kind'] in GEN_KINDS else st['len'] / fs_object(case))
+                   for k, st in enumerate(case['stims']))
+        if static['max_duration'] != want:
+            return f'get_max_duration() = {static["max_duration"]!r}, the longest source lasts {want!r}'
+    # clone is the identity on the model
+    pairs = [(o, r) for o, r in zip(case['ops'], res) if o[0] != 'clone']
+    prev = None
+    for o, r in zip(case['ops'], res):
+        if o[0] == 'clone':
+            if prev is not None and 'status' in prev and r['status'] != prev['status']:
+                return f'clone() differs from its original: {r["status"]} vs {prev["status"]}'
+            if r['events']:
+                return 'clone() notified'
+        elif 'status' in r:
+            prev = r
+    if len(dec) != len(pairs):
+        return f'model produced {len(dec)} results, implementation {len(pairs)}'
+    expd = expected_decrements(case, res)
+    for i, (o, r) in enumerate(zip(case['ops'], res)):
+        if expd is not None and 'decs' in r and r['decs'] != expd[i]:
+            return f"op {i} {o}: 'decrement' notifications {r['decs']}, expected {expd[i]}"
+        if 'second' in r and r['second'] != [e[1] for e in r['events'] if e[0] == 'added']:
+            return f"op {i} {o}: a second 'added' subscriber saw {r['second']}"
+    for i, ((o, r), d) in enumerate(zip(pairs, dec)):
         if 'raised' in r:
             if not d.get('raised'):
                 return f'op {i} {o}: implementation raised {r["raised"]}, model did not'
             continue
         if d.get('raised'):
             return f'op {i} {o}: model raises, implementation did not'
+        if o[0] == 'closest':
+            if r['key'] != d.get('closest'):
+                return f'op {i} {o}: get_closest_key gives {r["key"]}, model {d.get("closest")}'
+            continue
         want_ev = []
         for e in r['events']:
             if e[0] == 'empty':
-                want_ev.append([3, 0, 0])
+                want_ev.append([3, 0, 0, 0])
             else:
                 if not e[3]:
                     return f'op {i} {o}: notified t0 is not exactly on the sample grid'
-                want_ev.append([1 if e[0] == 'added' else 2, e[1], e[2]])
+                st = case['stims'][e[1]]
+                if e[4] != declared_dur(st) / fs:
+                    return f'op {i} {o}: notified duration {e[4]!r} is not the declared {declared_dur(st)}/fs'
+                if e[5] != _jsonable(st.get('meta')):
+                    return f'op {i} {o}: notified metadata {e[5]!r} is not the queued {st.get("meta")!r}'
+                if e[0] == 'added' and e[6] != (not (len(o) > 2 and o[2] in ('nd', 'ndkw'))):
+                    return f'op {i} {o}: notified decrement flag {e[6]}'
+                want_ev.append([1 if e[0] == 'added' else 2, e[1], e[2], declared_dur(st)])
         if want_ev != d['events']:
             return f'op {i} {o}: notifications {want_ev} vs model {d["events"]}'
         if o[0] == 'pop':
@@ -263,7 +607,9 @@ def compare(case, res, mo, ntests=0):
         st = r['status']
         if not st['ts_exact']:
             return f'op {i} {o}: get_ts() is not samples/fs'
-        got = {k: st[k] for k in ('samples', 'empty', 'count', 'requested', 'remaining')}
+        if st.get('info'):
+            return f'op {i} {o}: {st["info"]}'
+        got = {k: st[k] for k in ('samples', 'empty', 'count', 'requested', 'remaining', 'factories')}
         if got != d['status']:
             return f'op {i} {o}: status {got} vs model {d["status"]}'
     return None
